@@ -9,7 +9,7 @@ import re
 
 import z3
 
-from .symex import (Agg, BoolV, EnumV, F64, Int, Opaque, Ref, UnitV, Unsupported, INT_TY, UNINIT)
+from .symex import (Agg, Blob, BoolV, EnumV, F64, Int, Opaque, Ref, UnitV, Unsupported, INT_TY, UNINIT)
 
 
 def rx(p):
@@ -382,3 +382,90 @@ CORE_STUBS = [
     (rx(r"^(?:parse::error::)?Error::io$"), h_error_io),
     (rx(r"^(?:parse::read::|read::)?Position::(line|column)$"), h_position_field),
 ]
+
+
+# ----------------------------------------------------------------------------- combinators taking closures
+
+def closure_fn(engine, cl):
+    if isinstance(cl, Agg) and cl.kind == "closure":
+        f = engine.ctx.index.get(cl.name)
+        if f is not None:
+            return f
+    raise Unsupported("cannot resolve closure %r" % (cl,))
+
+
+def h_ok_or_else(engine, st, fr, callee, argv, m):
+    opt, cl = argv
+    f = closure_fn(engine, cl)
+    some = list(opt.variants.get(1, [UNINIT]))
+    return ("fork", [
+        (opt.discr == 1, EnumV("Result", 0, {0: some}), None),
+        (opt.discr != 1, ("frame", f, [cl], lambda v: EnumV("Result", 1, {1: [v]})), None),
+    ])
+
+
+def h_and_then(engine, st, fr, callee, argv, m):
+    r, cl = argv
+    f = closure_fn(engine, cl)
+    okp = list(r.variants.get(0, [UNINIT]))
+    errp = list(r.variants.get(1, [UNINIT]))
+    return ("fork", [
+        (r.discr == 0, ("frame", f, [cl] + okp, None), None),
+        (r.discr != 0, EnumV("Result", 1, {1: errp}), None),
+    ])
+
+
+def h_map_err(engine, st, fr, callee, argv, m):
+    r, cl = argv
+    f = closure_fn(engine, cl)
+    okp = list(r.variants.get(0, [UNINIT]))
+    errp = list(r.variants.get(1, [UNINIT]))
+    return ("fork", [
+        (r.discr == 0, EnumV("Result", 0, {0: okp}), None),
+        (r.discr != 0, ("frame", f, [cl] + errp, lambda v: EnumV("Result", 1, {1: [v]})), None),
+    ])
+
+
+def h_transpose(engine, st, fr, callee, argv, m):
+    # Result<Option<T>,E> -> Option<Result<T,E>>
+    r = argv[0]
+    okp = r.variants.get(0, [UNINIT])
+    o = okp[0] if okp else UNINIT
+    errp = list(r.variants.get(1, [UNINIT]))
+    alts = [(r.discr != 0, EnumV("Option", 1, {1: [EnumV("Result", 1, {1: errp})]}), None)]
+    if isinstance(o, EnumV):
+        alts.append((z3.And(r.discr == 0, o.discr == 1), EnumV("Option", 1, {1: [EnumV("Result", 0, {0: list(o.variants.get(1, [UNINIT]))})]}), None))
+        alts.append((z3.And(r.discr == 0, o.discr != 1), EnumV("Option", 0, {}), None))
+    else:
+        raise Unsupported("transpose payload %r" % (o,))
+    return ("fork", alts)
+
+
+COMBINATOR_STUBS = [
+    (rx(r"^Option::<.*>::ok_or_else::<"), h_ok_or_else),
+    (rx(r"^std::result::Result::<.*>::and_then::<"), h_and_then),
+    (rx(r"^std::result::Result::<.*>::map_err::<"), h_map_err),
+    (rx(r"^std::result::Result::<Option<.*>::transpose$"), h_transpose),
+]
+
+
+# ----------------------------------------------------------------------------- opaque constructors (value building)
+
+def opaque_builder(names):
+    """Calls that only build heap values: return an Opaque recording name and arguments."""
+    out = []
+    for pat in names:
+        def h(engine, st, fr, callee, argv, m, pat=pat):
+            st.events.append(("build", callee.split("::<")[0], tuple(argv)))
+            return Blob(callee.split("::<")[0])
+        out.append((rx(pat), h))
+    return out
+
+
+BUILDER_STUBS = opaque_builder([
+    r"^Value::(symbol|list|string|keyword|bytes|cons|vector)::<", r"^Vec::<.*>::into_boxed_slice$",
+    r"^<.* as Into<Box<.*>>>::into$", r"^Box::<.*>::new_uninit$", r"box_assume_init_into_vec_unsafe",
+    r"^(?:datum::)?Datum::(vec|cons|primitive|quotation)$", r"^(?:datum::)?Span::(new|empty)$",
+    r"^<\{closure@.*\} as Fn<.*>>::call$", r"^<Value as From<.*>>::from$", r"^<String as Into<Box<str>>>::into$",
+    r"^<&str as Into<Box<str>>>::into$", r"^Box::<.*>::new$", r"^<.* as Clone>::clone$",
+])
